@@ -269,6 +269,12 @@ func (b *builder) build(x *xExpr) carapace.Action {
 		return b.build(x.E).Suffix(x.S)
 	case "style":
 		return b.build(x.E).Style(x.S)
+	case "multiPartsP":
+		// paths with placeholders (`{user}`); a placeholder is completed by a callback, whose values can coincide with a static sibling segment
+		vals := x.Ps
+		return carapace.ActionValuesDescribed(vals...).MultiPartsP("/", "{.*}", func(placeholder string, matches map[string]string) carapace.Action {
+			return carapace.ActionValuesDescribed("root", "from placeholder "+placeholder, "guest", "a guest", "x", "x of "+placeholder).Usage("usage of " + placeholder)
+		})
 	case "styleR":
 		// style by reference: the referenced string gets its final value (the user's style configuration is loaded)
 		// after the Action was built and before it is invoked; the style at invocation time counts
@@ -794,6 +800,15 @@ func genExpr(r *rng, depth int) *xExpr {
 		}
 		return &xExpr{K: "usage", S: pick(r, []string{"", "usage one", "u2"}), E: inner()}
 	case 10:
+		if r.chance(35) {
+			// no-space sets that overlap partly: declared one after the other, or by the members of a Batch
+			a, b := pick(r, []string{"/", "=", "/=", ":"}), pick(r, []string{"/=", "=:", "/:", "/=:"})
+			in := &xExpr{K: "nospace", S: a, E: inner()}
+			if r.chance(40) {
+				in = &xExpr{K: "batch", Es: []*xExpr{in, {K: "nospace", S: b, E: &xExpr{K: "plain", Ps: []string{"k=", "d/"}}}}}
+			}
+			return &xExpr{K: "nospace", S: b, E: in}
+		}
 		return &xExpr{K: "nospace", S: pick(r, []string{"", "/", "/=", "*", "é"}), E: inner()}
 	case 11:
 		if r.chance(50) {
@@ -1045,6 +1060,9 @@ func genHistory(r *rng, tier string) interface{} {
 		}
 		return in
 	}
+	if r.chance(6) {
+		return genSharedStoredMessage(r)
+	}
 	if r.chance(3) {
 		// a result behind the file cache with everything a result can carry: the first invocation computes and stores it, the
 		// later ones read it back
@@ -1155,6 +1173,19 @@ func genRepeat(r *rng, tier string) interface{} {
 		}
 		return repeatIn{Expr: &xExpr{K: "batch", Es: outer}, Shared: shared, Ctx: c0, Shell: pick(r, []string{"fish", "export", "elvish"}), N: 40}
 	}
+	if r.chance(10) {
+		// MultiPartsP: static segments beside placeholders whose callbacks yield the same values; several placeholders at one position
+		ps := []string{"root", "the static root", "{user}", "any user", "{group}/sub", "a group", "x/y", "static x", "{user}/home", "home of a user", "guest", "static guest"}
+		keep := []string{}
+		for i := 0; i+1 < len(ps); i += 2 {
+			if r.chance(75) {
+				keep = append(keep, ps[i], ps[i+1])
+			}
+		}
+		e = &xExpr{K: "multiPartsP", Ps: keep, Opaque: true}
+		c := xCtx{Value: pick(r, []string{"", "r", "x", "root/", "x/"})}
+		return repeatIn{Expr: e, Ctx: c, Shell: pick(r, []string{"export", "fish", "zsh", "elvish", "bash"}), N: 40}
+	}
 	if r.chance(12) {
 		// displays that differ only in case, rebuilt from maps (Batch / MultiParts): their order must not vary
 		tw := func() *xExpr {
@@ -1203,8 +1234,30 @@ func genRepeat(r *rng, tier string) interface{} {
 // ---- op "batchrace": Batch scenarios for the race detector (C09); run on the -race build
 var batchRaceCount int
 
+// genSharedStoredMessage: a stored (already invoked) action that carries a message, shared by several batches as a member that is
+// not the first one: what the batches add to or remove from *their* messages must not reach the stored action (nor each other)
+func genSharedStoredMessage(r *rng) historyIn {
+	in := historyIn{}
+	c0 := xCtx{}
+	stored := &xExpr{K: "stored", Ctx: &c0, E: &xExpr{K: "message", M: "stored message"}}
+	plain := func() *xExpr { return &xExpr{K: "plain", Ps: []string{"a", "b"}} }
+	in.Table = []*xExpr{stored,
+		{K: "batch", Es: []*xExpr{plain(), {K: "ref", ID: 0}, {K: "message", M: "later message"}}},
+		{K: "batch", Es: []*xExpr{plain(), {K: "ref", ID: 0}}},
+		{K: "suppress", S: "stored", E: &xExpr{K: "batch", Es: []*xExpr{plain(), {K: "ref", ID: 0}}}},
+		{K: "ref", ID: 0}}
+	c := xCtx{}
+	for _, e := range pick(r, [][]int{{1, 2, 4}, {3, 2, 4}, {1, 3, 2}, {2, 1, 2, 3, 4}}) {
+		in.Steps = append(in.Steps, historyStep{E: e, Ctx: c})
+	}
+	return in
+}
+
 func genBatchRace(r *rng, tier string) interface{} {
 	in := historyIn{}
+	if r.chance(6) {
+		return genSharedStoredMessage(r)
+	}
 	if r.chance(12) {
 		// registrations for ONE command from many members at once: none may be lost
 		n := 8 + r.intn(16)
